@@ -27,8 +27,9 @@ import (
 // token stand for the path of the valid JSON file, of a file that does not exist and of a
 // file with invalid JSON content in the per-process scratch directory.
 type Case struct {
-	Argv []string `json:"argv"`           // shrunk vector (quoted tokens)
-	Orig []string `json:"orig,omitempty"` // vector as generated, when it was shrunk
+	Layout string   `json:"layout,omitempty"` // "" = Cfg; else the table-built struct of that name (layout.go)
+	Argv   []string `json:"argv"`             // shrunk vector (quoted tokens)
+	Orig   []string `json:"orig,omitempty"`   // vector as generated, when it was shrunk (omitted when very long)
 	// Pre: vectors parsed (each with its own fresh FlagSet) in the same process before Argv.
 	// Only set for state-leak violations, where Argv is the canary vector.
 	Pre [][]string `json:"pre,omitempty"`
@@ -59,6 +60,7 @@ func unquoteTokens(q []string) ([]string, error) {
 type fixture struct {
 	dir                 string
 	valid, missing, bad string
+	validL              map[string]string // valid JSON file per table-built layout
 }
 
 func setup() (*fixture, error) {
@@ -79,6 +81,13 @@ func setup() (*fixture, error) {
 	if err = os.WriteFile(fx.bad, []byte(`{"N": 70,`), 0o644); err != nil {
 		return nil, err
 	}
+	fx.validL = map[string]string{}
+	for id, l := range layouts {
+		fx.validL[id] = filepath.Join(dir, "valid-"+id+".json")
+		if err = os.WriteFile(fx.validL[id], []byte(l.json), 0o644); err != nil {
+			return nil, err
+		}
+	}
 	for _, d := range []string{"cwd", "home"} {
 		if err = os.Mkdir(filepath.Join(dir, d), 0o755); err != nil {
 			return nil, err
@@ -98,11 +107,15 @@ func (fx *fixture) cleanup() {
 
 // subst replaces the path placeholders; it returns a fresh slice in every case so that the
 // slice handed to Parse is never shared with the model.
-func (fx *fixture) subst(tokens []string) []string {
+func (fx *fixture) subst(tokens []string) []string { return fx.substWith(tokens, fx.valid) }
+
+func (fx *fixture) validOf(l *layout) string { return fx.validL[l.id] }
+
+func (fx *fixture) substWith(tokens []string, valid string) []string {
 	out := make([]string, len(tokens))
 	for i, t := range tokens {
 		if strings.IndexByte(t, '@') >= 0 {
-			t = strings.ReplaceAll(t, "@VALID@", fx.valid)
+			t = strings.ReplaceAll(t, "@VALID@", valid)
 			t = strings.ReplaceAll(t, "@MISSING@", fx.missing)
 			t = strings.ReplaceAll(t, "@BADJSON@", fx.bad)
 		}
@@ -251,10 +264,39 @@ func keyOf(kind string, tokens []string) string {
 
 var longAliases = strings.NewReplacer(nameLS, "<LS200>", nameLN, "<LN65>", nameLB, "<LB64>", nameLU, "<LU63>")
 
-// shrink removes tokens one at a time as long as the same kind of disagreement remains, so
-// that the violation key names a minimal vector.
-func shrink(tokens []string, kind string, fx *fixture, log *[][]string) []string {
+// evalL evaluates a vector against Cfg (lay == nil) or a table-built struct.
+func evalL(tokens []string, fx *fixture, lay *layout) (kind, expected, observed string, o outcome) {
+	if lay == nil {
+		return eval(tokens, fx)
+	}
+	return evalG(tokens, fx, lay)
+}
+
+func keyOfL(lay *layout, kind string, tokens []string) string {
+	if lay != nil {
+		kind = "layout-" + lay.id + "/" + kind
+	}
+	return keyOf(kind, tokens)
+}
+
+// shrink removes tokens as long as the same kind of disagreement remains, so that the
+// violation key names a minimal vector: long vectors first lose whole chunks (halves,
+// quarters, ...), then windows of 3, 2, 1 tokens are removed.
+func shrink(tokens []string, kind string, fx *fixture, lay *layout, log *[][]string) []string {
 	cur := append([]string(nil), tokens...)
+	for c := len(cur) / 2; c >= 4 && len(cur) > 48; c /= 2 {
+		for i := 0; i+c <= len(cur); {
+			cand := append(append([]string(nil), cur[:i]...), cur[i+c:]...)
+			if k, _, _, _ := evalL(cand, fx, lay); k == kind {
+				cur = cand
+			} else {
+				i += c
+			}
+		}
+	}
+	if len(cur) > 400 {
+		return cur // still huge: leave it
+	}
 	for changed := true; changed; {
 		changed = false
 		for w := 3; w >= 1; w-- { // windows of 3, 2, 1 tokens (a flag and its separate value go together)
@@ -263,7 +305,7 @@ func shrink(tokens []string, kind string, fx *fixture, log *[][]string) []string
 				if log != nil && len(*log) < 400 {
 					*log = append(*log, quoteTokens(cand))
 				}
-				if k, _, _, _ := eval(cand, fx); k == kind {
+				if k, _, _, _ := evalL(cand, fx, lay); k == kind {
 					cur, changed = cand, true
 					i--
 				}
@@ -279,11 +321,12 @@ func runCase(cs Case, fx *fixture) (key, expected, observed string) {
 	if err != nil {
 		return "", "", ""
 	}
-	kind, e, ob, _ := eval(tokens, fx)
+	lay := layouts[cs.Layout] // nil for ""
+	kind, e, ob, _ := evalL(tokens, fx, lay)
 	if kind == "" {
 		return "", "", ""
 	}
-	return keyOf(kind, tokens), e, ob
+	return keyOfL(lay, kind, tokens), e, ob
 }
 
 // ---------------------------------------------------------------------------------------
@@ -296,6 +339,9 @@ func (mon) Level(string) (string, string) {
 	return "exploration", "argument vectors run through the real NewFlagSet(&Cfg{9 types + 4 flags with 63/64/65/200-byte names})+Parse and through a reference parser of the documented grammar; compared: error-vs-nil, Args(), ShowUsage(), all 13 field values, no panic. " +
 		"Exhaustive: every vector of length <= 5 (quick) / <= 6 (thorough, 17.9M) over the 16-token alphabet of DESIGN.md C10, plus every vector of length <= 3 (quick) / <= 4 (thorough) with one -config form (=valid file, =missing file, =invalid JSON, =empty, separate-token valid) inserted at every position; plus every vector of length <= 4 (quick) / <= 5 (thorough) over a second 16-token alphabet that mixes the long-named flags in all spellings (-n=v, --n=v, -n v, bare bool, '=' inside the value, near-miss names) with 7 tokens of the first; " +
 		"random: seeded vectors of <= 12 tokens from well-formed flags of all 13 flags (9 types, long names) in all 4 spellings, near-misses, repeated flags, bool+stray value, unknown names, flag-like values and arbitrary byte strings (quick 1e6, thorough 1e7). " +
+		"Thorough only: (a) exhaustive sweeps of length <= 5 over four further alphabets for Cfg - 'ints' (24 tokens: unsigned flags with negative / >2^63 / hex / octal / underscore values, +5, ' 5', '5 ', values in the next token), 'forms' (24: float, duration, bool, base64 text forms valid and invalid, so that repeated flags occur invalid-then-valid and valid-then-invalid), 'edges' (24: '--', '-', the empty token, '=' at every position, control bytes, invalid UTF-8), 'config' (20: -config in every spelling and position, repeated, missing file, invalid JSON, empty, value in the next token); " +
+		"(b) two further structs built with reflect.StructOf from the same table as the model's flag set: 'names' (40 flags nested up to 5 levels: names that are prefixes of each other, differ only in case or in '-'/'_'/'.', neighbours of help/config, names like 5, 1, x-, a b, c,d, untagged fields; exhaustive length <= 4 over 32 tokens + 3e6 random vectors) and 'wide' (120 flags w0..w119 of all 9 types nested up to 6 levels; exhaustive length <= 4 over 16 tokens + 1.5e6 random vectors of <= 24 tokens); " +
+		"(c) 1.6e7 random vectors of <= 16 tokens from a richer token grammar (0-3 dashes, mutated names, '=' at a random position, '==', wide pools of valid/invalid text per type, chosen invalid/valid repetitions); (d) 4096 vectors of up to 10^4 tokens in 9 shapes (thousands of repeated flags then args, bad-then-good, good-then-bad-last, '--' then flag-like tokens, missing value / undefined flag at the very end, positional only, one flag repeated, -config repeated). Counters cases_<workload>/accepted_<workload>, long_shape_*, max.vector_tokens. " +
 		"After every case a fixed canary vector is parsed again with a fresh FlagSet (Parse must not depend on earlier Parse calls in the process). " +
 		"distinct_nontrivial = distinct parser paths: the tokens the reference parser looked at (up to and including the token it stopped or failed on), counted only when at least one token was a flag token"
 }
@@ -311,7 +357,10 @@ func (mon) Assumptions(string) []string {
 }
 
 type shardArgs struct {
-	Kind    string `json:"kind"` // "exh" | "rand"
+	Kind    string `json:"kind"`              // "exh" | "rand" | thorough only: "sweep" | "rand2" | "long"
+	Alpha   string `json:"alpha,omitempty"`   // sweep: name of the themed alphabet (gen2.go)
+	Layout  string `json:"layout,omitempty"`  // sweep, rand2: "" = Cfg, else a table-built struct (layout.go)
+	MaxTok  int    `json:"max_tok,omitempty"` // rand2: longest vector; long: vector length
 	MaxLen  int    `json:"max_len,omitempty"`
 	MaxLen2 int    `json:"max_len2,omitempty"` // second sweep (long-named flags)
 	CfgLen  int    `json:"cfg_len,omitempty"`
@@ -334,8 +383,35 @@ func (mon) Plan(prop, tier string, seed int64) []drv.Shard {
 		a, _ := json.Marshal(shardArgs{Kind: "rand", Part: p, Parts: parts, Count: nrand / parts})
 		out = append(out, drv.Shard{Name: fmt.Sprintf("rand-%d", p), Args: a})
 	}
+	if tier != "thorough" {
+		return out
+	}
+	// thorough only: further alphabets, further structs, richer random grammar, very long vectors
+	add := func(name string, sa shardArgs) {
+		for p := 0; p < parts; p++ {
+			sa.Part, sa.Parts = p, parts
+			a, _ := json.Marshal(sa)
+			out = append(out, drv.Shard{Name: fmt.Sprintf("%s-%d", name, p), Args: a, Secs: 3600})
+		}
+	}
+	add("sweep-ints", shardArgs{Kind: "sweep", Alpha: "ints", MaxLen: 5})
+	add("sweep-forms", shardArgs{Kind: "sweep", Alpha: "forms", MaxLen: 5})
+	add("sweep-edges", shardArgs{Kind: "sweep", Alpha: "edges", MaxLen: 5})
+	add("sweep-config", shardArgs{Kind: "sweep", Alpha: "config", MaxLen: 5})
+	add("sweep-names", shardArgs{Kind: "sweep", Alpha: "names", Layout: "names", MaxLen: 4})
+	add("sweep-wide", shardArgs{Kind: "sweep", Alpha: "wide", Layout: "wide", MaxLen: 4})
+	add("rand2-cfg", shardArgs{Kind: "rand2", Count: 16000000 / parts, MaxTok: 16})
+	add("rand2-names", shardArgs{Kind: "rand2", Layout: "names", Count: 3000000 / parts, MaxTok: 16})
+	add("rand2-wide", shardArgs{Kind: "rand2", Layout: "wide", Count: 1500000 / parts, MaxTok: 24})
+	add("long", shardArgs{Kind: "long", Count: 256, MaxTok: 10000})
+	for i := range out {
+		out[i].Secs = 3600
+	}
 	return out
 }
+
+// tags of the thorough-only workloads (counters cases_<tag>)
+var thoroughTags = []string{"sweep-ints", "sweep-forms", "sweep-edges", "sweep-config", "sweep-names", "sweep-wide", "rand2-cfg", "rand2-names", "rand2-wide", "long"}
 
 type runner struct {
 	c       *drv.Ctx
@@ -346,6 +422,25 @@ type runner struct {
 
 	canaryOn bool    // the canary vector is parsed again after every case
 	canaryO  outcome // what the model says about it
+
+	maxLen int64
+	lay    *layout // nil = Cfg
+	tag    string  // workload name, prefix of the per-workload counters
+	quiet  bool    // no samples (very long vectors)
+}
+
+func (rn *runner) canaryVec() []string {
+	if rn.lay != nil {
+		return rn.lay.canary
+	}
+	return canary
+}
+
+func (rn *runner) layoutID() string {
+	if rn.lay != nil {
+		return rn.lay.id
+	}
+	return ""
 }
 
 // The canary: Parse has to be a function of its argument vector (and the files it names) only.
@@ -355,6 +450,11 @@ type runner struct {
 var canary = []string{"-b", "--help", "-" + nameLB, "-n", "5", "-s=a=b", "rest", "--"}
 
 func (rn *runner) canaryCheck() (kind, expected, observed string) {
+	if rn.lay != nil {
+		argv := append([]string(nil), rn.lay.canary...)
+		r := runRealG(argv, rn.lay)
+		return judgeG(rn.lay, &rn.canaryO, &r, rn.lay.canary, argv)
+	}
 	argv := append([]string(nil), canary...)
 	r := runReal(argv)
 	return judge(&rn.canaryO, &r, canary, argv)
@@ -362,19 +462,32 @@ func (rn *runner) canaryCheck() (kind, expected, observed string) {
 
 // leak reports a state-leak violation; pre are the vectors parsed since the canary last agreed.
 func (rn *runner) leak(kind, what string, culprit []string, pre [][]string, e, ob string) {
-	cs := Case{Argv: quoteTokens(canary), Pre: pre}
-	rn.c.Violate(keyOf("state-leak:"+kind+":"+what, culprit), cs,
+	cs := Case{Layout: rn.layoutID(), Argv: quoteTokens(rn.canaryVec()), Pre: pre}
+	rn.c.Violate(keyOfL(rn.lay, "state-leak:"+kind+":"+what, culprit), cs,
 		"Parse(canary) does not depend on earlier Parse calls of other FlagSets: "+e, ob)
 	rn.c.Note("shard stopped after a state-leak violation: the package state of this process is no longer trustworthy")
 }
 
 // exec evaluates one vector; false = stop the shard (enough violations).
 func (rn *runner) exec(tokens []string) bool {
-	kind, e, ob, o := eval(tokens, rn.fx)
+	kind, e, ob, o := evalL(tokens, rn.fx, rn.lay)
 	rn.evals++
 	if rn.evals&63 == 0 {
-		rn.c.Progress(strings.Join(quoteTokens(tokens), " "), false)
+		pt := tokens
+		if len(pt) > 16 {
+			pt = pt[:16]
+		}
+		rn.c.Progress(rn.tag+" "+strings.Join(quoteTokens(pt), " "), false)
 		rn.c.Eval(64)
+	}
+	if rn.tag != "" {
+		rn.sum["cases_"+rn.tag]++
+		if o.class == "" {
+			rn.sum["accepted_"+rn.tag]++
+		}
+	}
+	if int64(len(tokens)) > rn.maxLen {
+		rn.maxLen = int64(len(tokens))
 	}
 	// what was observed
 	if o.class == "" {
@@ -408,9 +521,13 @@ func (rn *runner) exec(tokens []string) bool {
 	if o.nflags > 0 || o.stop == "error" {
 		rn.c.DistinctStr(strings.Join(tokens[:o.consumed], "\x00") + "\x00" + o.stop)
 		sk := o.stop + "/" + o.class
-		if !rn.samples[sk] && len(rn.samples) < 6 && len(tokens) >= 3 {
+		if !rn.quiet && !rn.samples[sk] && len(rn.samples) < 6 && len(tokens) >= 3 {
 			rn.samples[sk] = true
-			rn.c.Sample(map[string]any{"argv": quoteTokens(tokens), "model": describe(o)})
+			if rn.lay != nil {
+				rn.c.Sample(map[string]any{"layout": rn.lay.id, "argv": quoteTokens(tokens), "model": rn.lay.describe(&o)})
+			} else {
+				rn.c.Sample(map[string]any{"argv": quoteTokens(tokens), "model": describe(o)})
+			}
 		}
 	}
 	if rn.canaryOn {
@@ -421,16 +538,16 @@ func (rn *runner) exec(tokens []string) bool {
 	}
 	if kind != "" {
 		var log [][]string
-		min := shrink(tokens, kind, rn.fx, &log)
-		_, e2, ob2, _ := eval(min, rn.fx)
+		min := shrink(tokens, kind, rn.fx, rn.lay, &log)
+		_, e2, ob2, _ := evalL(min, rn.fx, rn.lay)
 		if e2 != "" {
 			e, ob = e2, ob2
 		}
-		cs := Case{Argv: quoteTokens(min)}
-		if len(min) != len(tokens) {
+		cs := Case{Layout: rn.layoutID(), Argv: quoteTokens(min)}
+		if len(min) != len(tokens) && len(tokens) <= 200 {
 			cs.Orig = quoteTokens(tokens)
 		}
-		rn.c.Violate(keyOf(kind, min), cs, e, ob)
+		rn.c.Violate(keyOfL(rn.lay, kind, min), cs, e, ob)
 		if rn.canaryOn {
 			if ck, ce, cob := rn.canaryCheck(); ck != "" {
 				rn.leak(ck, "while-shrinking", tokens, log, ce, cob)
@@ -444,6 +561,7 @@ func (rn *runner) exec(tokens []string) bool {
 
 func (rn *runner) flush() {
 	rn.c.Eval(rn.evals & 63)
+	rn.c.MaxOf("vector_tokens", rn.maxLen)
 	for k, v := range rn.sum {
 		rn.c.Add(k, v)
 	}
@@ -460,10 +578,20 @@ func (mn mon) Run(sh drv.Shard, c *drv.Ctx) {
 	defer fx.cleanup()
 	rn := &runner{c: c, fx: fx, sum: map[string]int64{}, samples: map[string]bool{}}
 	defer rn.flush()
+	if a.Layout != "" {
+		if rn.lay = layouts[a.Layout]; rn.lay == nil {
+			c.Inconclusive("unknown layout " + a.Layout)
+			return
+		}
+	}
+	rn.tag = a.Kind
+	if i := strings.LastIndexByte(sh.Name, '-'); i > 0 && a.Kind != "exh" && a.Kind != "rand" {
+		rn.tag = sh.Name[:i]
+	}
 	// the canary is an ordinary case first; it is used as canary only if it is parsed correctly
 	var ck string
-	ck, _, _, rn.canaryO = eval(canary, fx)
-	if !rn.exec(canary) {
+	ck, _, _, rn.canaryO = evalL(rn.canaryVec(), fx, rn.lay)
+	if !rn.exec(rn.canaryVec()) {
 		return
 	}
 	rn.canaryOn = ck == ""
@@ -477,6 +605,39 @@ func (mn mon) Run(sh drv.Shard, c *drv.Ctx) {
 				return
 			}
 		}
+	case "sweep":
+		al := themed[a.Alpha]
+		if al == nil {
+			c.Inconclusive("unknown alphabet " + a.Alpha)
+			return
+		}
+		runSweep(rn, al, a.MaxLen, a.Part, a.Parts)
+	case "rand2":
+		g := cfgRandG
+		if rn.lay != nil {
+			g = newRandG(rn.lay.names, rn.lay.kinds)
+		}
+		r := rand.New(rand.NewSource(sh.Seed*1000003 + int64(a.Part) + int64(drv.HashStr(sh.Name)>>20)))
+		for i := 0; i < a.Count; i++ {
+			if !rn.exec(g.vector(r, a.MaxTok)) {
+				return
+			}
+		}
+	case "long":
+		rn.quiet = true
+		r := rand.New(rand.NewSource(sh.Seed*1000003 + int64(a.Part) + 77))
+		for i := 0; i < a.Count; i++ {
+			n := a.MaxTok
+			if i%4 == 3 {
+				n = 1000 + r.Intn(a.MaxTok/2) // some shorter ones
+			}
+			shape, v := longVector(r, n)
+			rn.sum["long_shape_"+shape]++
+			rn.sum["long_tokens"] += int64(len(v))
+			if !rn.exec(v) {
+				return
+			}
+		}
 	}
 }
 
@@ -486,6 +647,16 @@ func (mon) Finish(prop, tier string, mg *drv.Merged) (inc []string) {
 		"stop_ddash", "stop_dash", "stop_nonflag", "stop_end", "accept_repeated_flag", "accept_bool_then_nonflag", "accept_value_looks_like_flag", "accept_config_loaded", "accept_usage_true", "accept_args_nonempty"} {
 		if mg.Sum[k] == 0 {
 			inc = append(inc, "no vector of class "+k+" was evaluated")
+		}
+	}
+	if tier == "thorough" {
+		for _, t := range thoroughTags {
+			if mg.Sum["cases_"+t] == 0 || mg.Sum["accepted_"+t] == 0 {
+				inc = append(inc, "workload "+t+" evaluated no vector or none that the grammar accepts")
+			}
+		}
+		if mg.Max["vector_tokens"] < 10000 {
+			inc = append(inc, "no vector of 10^4 tokens was evaluated")
 		}
 	}
 	return inc
@@ -511,7 +682,7 @@ func (mn mon) Replay(v drv.Violation, c *drv.Ctx) {
 		// state-leak case: parse the recorded vectors first, in this process, then the canary
 		for _, q := range cs.Pre {
 			if t, err := unquoteTokens(q); err == nil {
-				eval(t, fx)
+				evalL(t, fx, layouts[cs.Layout])
 				c.Eval(1)
 			}
 		}
